@@ -16,13 +16,22 @@ PROP = {
             "an encoding override is an arbitrary function from code points to byte lists (a pure function; a stateful closure is outside the model)",
             "generic-Target theorems assume the lens laws get(set t s) = s, set(set t a) b = set t b (as_mut_string returns the same String every time)",
         ],
-        "known_classes": [],
-        "theorem_notes": {},
+        "known_classes": ["F-C15-1 (also a C04 matter): Known_C15_1 target start ops = start_position is not a char boundary of the target and the history contains clear(); then clear() panics in String::truncate, an undocumented panic. C15_suffix excludes exactly this class, C15_1_known_refuted shows it inhabited, C15_panics shows it is the only undocumented panic of the Serializer."],
+        "theorem_notes": {
+            "C15_rt": "full: every list of pairs of scalar-value strings, empty names / values included (the pair (\"\", \"\") is written as \"=\"); through extend_pairs (serialize_pairs) and through a sequence of append_pair calls",
+            "C15_rt_ops": "full for append-only histories (append_pair, append_key_only, extend_pairs, extend_keys_only in any order): a key without value reads back as (k, \"\"), the empty key writes nothing (DESIGN section 10)",
+            "C15_alpha": "full: any history from the empty String, including clear and arbitrary byte-valued encoding overrides",
+            "C15_total": "full: parse is a total function of arbitrary N lists; its type has no panic outcome by construction and the loop fuel (None) is proved never exhausted; && / leading / trailing '&' laws; closed form parse_spec",
+            "C15_suffix": "full, stronger than asked: the existing suffix may be ANY text (not only serializer output); histories may contain clear and encoding_override (the read-back pairs are then given by ops_effect, with utf8_lossy of the override's bytes); exclusion ~Known_C15_1 (F-C15-1)",
+            "C15_suffix_generic": "the same over any Target satisfying the three lens laws; this is the lemma the URL-editing clause (Url::query_pairs_mut, maintainer's part) instantiates; the clause itself is NOT part of this file",
+            "C15_panics": "exact characterisation of every Panic outcome of for_suffix / finish / each operation, for any Target; OutOfFuel proved impossible",
+            "C15_views": "ByteSerialize chunks concatenate to the per-byte map and are non-empty, size_hint bounds, Parse with Cow kinds agrees with ParseIntoOwned, replace_plus borrows iff there is no '+'. The Cow kind of decode()'s result (Borrowed/Owned) is modelled and compared in the correspondence but has no theorem",
+        },
     }
 
 TEXT = {
-  "level": "Machine-checked Coq theorems about an executable Gallina model of the form_urlencoded crate (parse, decode, replace_plus, byte_serialize, Serializer over a generic Target with for_suffix / clear / append / extend / encoding_override / finish and their documented panics).",
+  "level": "Machine-checked Coq theorems (11, all closed under the global context) about an executable Gallina model of the whole form_urlencoded crate (Parse::next, decode, replace_plus, ParseIntoOwned, byte_serialize iterator, Serializer over a generic Target with for_suffix / clear / append_pair / append_key_only / extend_* / encoding_override / finish): round trip for all pair lists and all append-only histories, output alphabet for all histories, totality and closed form of parse with the '&&' laws, the for_suffix theorem for an arbitrary existing suffix and an arbitrary lens-like Target, and the exact set of panics. The byte_serialized_unchanged class, the separator / plus / space literals and the panic sites are regenerated from the Rust source on every run and the table theorem re-proved. The model is tied to the code by a correspondence run (exhaustive small scopes + random, about 330 000 cases quick) of the extracted model against the crate built from /repo.",
   "design_ref": "DESIGN.md section 8 C15, sections 4 and 6",
-  "note": "Crate-level part of C15; the URL-editing clause (Url::query_pairs_mut) is layered on the generic for_suffix theorem.",
+  "note": "Crate-level part of C15; the URL-editing clause (Url::query_pairs_mut / query_pairs) is not covered here - it is to be layered on C15_suffix_generic. Trusted: Coq kernel + vm_compute; tools/tables_c15.py; extraction (ExtrOcamlBasic only) + OCaml driver; the correspondence generators; std's from_utf8_lossy / is_char_boundary / String::truncate are modelled and cross-checked, not verified. Known finding F-C15-1: clear() panics when start_position is inside a multi-byte character (undocumented panic).",
   "technique": "Coq proof over Gallina model + table translator + extracted-model/implementation correspondence",
  }
